@@ -516,7 +516,7 @@ func c11Key(ops []c11Op, hist []int, sess []*c11Sess, npending int) string {
 
 func c11Stateless(env *verifx.Env, res *verifx.Result, t *testing.T) {
 	cases := env.NewCases(res, "stateless-endpoint")
-	for _, method := range []string{"POST", "GET", "DELETE", "PUT"} {
+	for _, method := range []string{"POST", "GET", "DELETE", "PUT", "POST-initialize"} {
 		for _, sid := range []string{"", "abc", "VSID0001"} {
 			idx, mine := cases.Next()
 			if !mine {
@@ -524,14 +524,21 @@ func c11Stateless(env *verifx.Env, res *verifx.Result, t *testing.T) {
 			}
 			s := NewServer(&Implementation{Name: "srv", Version: "1"}, &ServerOptions{Logger: quietLogger})
 			ran := 0
+			seenID := ""
 			AddTool(s, &Tool{Name: "t"}, func(ctx context.Context, r *CallToolRequest, in map[string]any) (*CallToolResult, any, error) {
 				ran++
+				seenID = r.Session.ID()
 				return &CallToolResult{}, nil, nil
 			})
 			h := NewStreamableHTTPHandler(func(*http.Request) *Server { return s }, &StreamableHTTPOptions{Stateless: true, Logger: quietLogger})
 			var body io.Reader
 			if method == "POST" || method == "PUT" {
 				body = strings.NewReader(`{"jsonrpc":"2.0","id":1,"method":"tools/call","params":{"name":"t","arguments":{}}}`)
+			}
+			initialize := method == "POST-initialize"
+			if initialize {
+				method = "POST"
+				body = strings.NewReader(`{"jsonrpc":"2.0","id":1,"method":"initialize","params":{"protocolVersion":"2025-06-18","capabilities":{},"clientInfo":{"name":"c","version":"1"}}}`)
 			}
 			r := httptest.NewRequest(method, "http://example.test/mcp", body)
 			r.Header.Set("Accept", "application/json, text/event-stream")
@@ -543,9 +550,18 @@ func c11Stateless(env *verifx.Env, res *verifx.Result, t *testing.T) {
 			w := httptest.NewRecorder()
 			h.ServeHTTP(w, r)
 			desc := fmt.Sprintf("%s sid=%q", method, sid)
+			if initialize {
+				desc = fmt.Sprintf("POST initialize sid=%q", sid)
+			}
 			switch {
 			case w.Header().Get("Mcp-Session-Id") != "":
 				cases.Violate(idx, "c11 stateless-issues-session-id", fmt.Sprintf("%s: response carries Mcp-Session-Id %q", desc, w.Header().Get("Mcp-Session-Id")), 1)
+			case seenID != "":
+				cases.Violate(idx, "c11 stateless-honours-session-id", fmt.Sprintf("%s: the handler's session reports the id %q", desc, seenID), 1)
+			case initialize && w.Code != 200:
+				cases.Violate(idx, "c11 stateless-post-rejected", fmt.Sprintf("%s: initialize answered %d", desc, w.Code), 1)
+			case initialize:
+				cases.Record(idx, fmt.Sprintf("initialize-%d", w.Code), 1, func() string { return desc })
 			case method == "POST" && (w.Code != 200 || ran != 1):
 				cases.Violate(idx, "c11 stateless-post-rejected", fmt.Sprintf("%s: status %d, tool ran %d times (a session id must be ignored, not honoured or rejected)", desc, w.Code, ran), 1)
 			case method != "POST" && w.Code != 405:
